@@ -193,7 +193,11 @@ def checkParams : List MParam → ArgFlags → Except Stage ArgFlags
 def checkFunc (f : MFunc) : Except Stage Unit :=
   match checkParams f.params {} with
   | .error e => .error e
-  | .ok fl => if (fl.arrIn && fl.valIn) || (fl.arrOut && fl.valOut) then .error .ifaces else .ok ()
+  | .ok fl =>
+    if (fl.arrIn && fl.valIn) || (fl.arrOut && fl.valOut) then .error .ifaces
+    -- `argument_counts` / MAX_ARGS_PER_CLASS: each class must fit its 4-bit field
+    else if !(counts f.params).fits15 then .error .ifaces
+    else .ok ()
 
 /-- names seen so far: (consts+errors, functions); iteration is leaf level first, then bases
     (`for from in src`), members in declaration order -/
